@@ -95,6 +95,30 @@ func c12Placements(e ast.Node, t gen.Ty, r *core.Rng) []placement {
 			func(x ast.Node) ast.Node { return ast.Binary{Op: "+", L: ast.ArrayLit{}, R: x} },
 		}
 	}
+	// e as the RIGHT operand of an operator whose left operand is itself an operator
+	// expression (kept in the temp register unless the compiler sees a call in e)
+	var nested []func(ast.Node) ast.Node
+	switch t.K {
+	case gen.TInt:
+		nested = []func(ast.Node) ast.Node{
+			func(x ast.Node) ast.Node { return ast.Binary{Op: "+", L: ast.Binary{Op: "+", L: ast.IntLit{V: 0}, R: ast.IntLit{V: 0}}, R: x} },
+			func(x ast.Node) ast.Node { return ast.Binary{Op: "*", L: ast.Binary{Op: "*", L: ast.IntLit{V: 1}, R: ast.IntLit{V: 1}}, R: x} },
+			func(x ast.Node) ast.Node { return ast.Binary{Op: "|", L: ast.Binary{Op: "-", L: ast.IntLit{V: 3}, R: ast.IntLit{V: 3}}, R: x} },
+		}
+	case gen.TFloat:
+		nested = []func(ast.Node) ast.Node{func(x ast.Node) ast.Node { return ast.Binary{Op: "*", L: ast.Binary{Op: "+", L: ast.IntLit{V: 1}, R: ast.IntLit{V: 0}}, R: x} }}
+	case gen.TBool:
+		nested = []func(ast.Node) ast.Node{func(x ast.Node) ast.Node { return ast.Binary{Op: "&", L: ast.Binary{Op: "|", L: ast.BoolLit{V: true}, R: ast.BoolLit{V: false}}, R: x} }}
+	case gen.TStr:
+		nested = []func(ast.Node) ast.Node{func(x ast.Node) ast.Node { return ast.Binary{Op: "+", L: ast.Binary{Op: "+", L: ast.StrLit{V: ""}, R: ast.StrLit{V: ""}}, R: x} }}
+	case gen.TArr:
+		nested = []func(ast.Node) ast.Node{func(x ast.Node) ast.Node { return ast.Binary{Op: "+", L: ast.Binary{Op: "+", L: ast.ArrayLit{}, R: ast.ArrayLit{}}, R: x} }}
+	}
+	for i, w := range nested {
+		add(fmt.Sprintf("right-of-nested-left-%d", i), true, true, w(e))
+		add(fmt.Sprintf("right-of-nested-left-in-function-%d", i), true, true, ast.Assign{Name: "vf", Value: fn(w(e))}, call("vf"))
+		add(fmt.Sprintf("unary-of-nested-%d", i), false, false, ast.Unary{Op: "#", X: toa(w(e))})
+	}
 	for i, id := range ids {
 		add(fmt.Sprintf("operand-depth1-%d", i), true, true, id(e))
 		add(fmt.Sprintf("operand-depth1-%d-discarded", i), false, false, id(e))
@@ -155,7 +179,7 @@ func c12Expr(ctx *core.Ctx, idx int) core.Result {
 		o.Faults = 1
 	}
 	g := gen.New(r, o)
-	var prelude []ast.Node
+	prelude := g.Helpers()
 	for k := r.Range(0, 3); k > 0; k-- {
 		prelude = append(prelude, g.TopStmt())
 	}
